@@ -27,7 +27,7 @@ def corpus():
         "run prop=C01 mode=constant rate=6/50ms dur=300 conc=3 body=2 failevery=3 failkind=panicerr",
         "run prop=C01 mode=users conc=2 dur=300 body=2 maxit=30 failevery=3 pushgw=ok",
         "run prop=C01 mode=users conc=2 dur=300 body=2 maxit=30 failevery=3 pushgw=fail1",     # the first push is refused
-    ]
+    ] + __import__("vlib.props._plan", fromlist=["x"]).cli_corpus_for("C01")
 
 
 def script(rng, n):
@@ -72,6 +72,9 @@ def generate(rng, tier):
 
 
 def compare(rec):
+    if rec["case"].startswith("cli "):
+        from . import _plan
+        return _plan.cli_compare(rec)
     if rec["model"] == "-":
         return None           # no model run; Spec decides
     if rec["impl"] != rec["model"]:
@@ -89,7 +92,7 @@ def distribution(recs):
     d = {"scripts": 0, "injected_records": 0, "collects_with_injection": 0, "stress_runs": 0, "component_runs": 0}
     for r in recs:
         c = r["case"]
-        if c.startswith("run "):
+        if c.startswith(("run ", "cli ")):
             d["whole_runs"] = d.get("whole_runs", 0) + 1
         elif c.startswith("progress.stress"):
             d["stress_runs"] += 1
